@@ -491,6 +491,22 @@ def doCommit (args : List String) : IO String := do
       | .ok t => return "ok " ++ ";".intercalate (showTree t)
   | _ => return "bad-op"
 
+/-- `aggregate <maxSize> <wounds: K:start:stop,...>` (K in F,H,D,L): output of AggregateWounds -/
+def doAggregate (args : List String) : IO String := do
+  match args with
+  | [mxS, wsS] =>
+    let ws : List Validate.Wound := (if wsS == "-" then [] else wsS.splitOn ",").filterMap fun t =>
+      match t.splitOn ":" with
+      | [k, a, b] =>
+        let kind := if k == "F" then Validate.WKind.file else if k == "H" then .closedFile else if k == "D" then .dir else .symlink
+        some ⟨kind, 0, parseNat a, parseNat b⟩
+      | _ => none
+    let out := Validate.aggregate (parseNat mxS) ws
+    return ",".intercalate (out.map fun w =>
+      let k := match w.kind with | .file => "F" | .closedFile => "H" | .dir => "D" | .symlink => "L"
+      s!"{k}:{w.start}:{w.stop}")
+  | _ => return "bad-op"
+
 def dispatch (line : String) : IO String := do
   match line.trimAscii.toString.splitOn " " with
   | "c11" :: args => doC11 args
@@ -502,6 +518,7 @@ def dispatch (line : String) : IO String := do
   | "hashinfo" :: args => doHashInfo args
   | "c13" :: args => doC13 args
   | "validate" :: args => doValidate args
+  | "aggregate" :: args => doAggregate args
   | "patchsk" :: args => doPatchSk args
   | "extract" :: args => doExtract args
   | "heal" :: args => doHeal args
